@@ -608,8 +608,11 @@ def check_property(prop, tier):
     }
     ev["coverage"].update(extra.get("coverage", {}))
     os.makedirs(os.path.join(VERIF, "evidence"), exist_ok=True)
-    with open(os.path.join(VERIF, "evidence", "%s.json" % prop), "w") as f:
-        json.dump(ev, f, indent=1, default=str)
+    # partial (VERIF_ONLY), mutant and seeded-change runs are development aids: they never
+    # overwrite the evidence of the registered check
+    if not (os.environ.get("VERIF_NO_EVIDENCE") or os.environ.get("VERIF_ONLY") or os.environ.get("VERIF_MUTANT")):
+        with open(os.path.join(VERIF, "evidence", "%s.json" % prop), "w") as f:
+            json.dump(ev, f, indent=1, default=str)
     print("[%s/%s] obligations=%d confirmed=%d paths=%d queries=%d solver=%.1fs wall=%.0fs exit=%d"
           % (prop, tier, n_obl, n_conf, paths, queries, solver_s, time.time() - t0, exit_code),
           flush=True)
